@@ -1067,6 +1067,9 @@ func callBuiltin(caller *frame, fn *ssa.Builtin, args []value) value {
 		case string, symStr, symStrB:
 			return strLenValue(x)
 		case symBytes:
+			if x.n != nil {
+				return x.n
+			}
 			return strLenValue(normStr(x.s))
 		case array:
 			return len(x)
